@@ -21,6 +21,34 @@ import (
 
 var uniq int // process-wide: struct names are never reused (the type registry is process-global)
 
+// Field NAMES are a rendering choice of the harness (the model only knows the index f<k>): one naming scheme
+// per history, set by a "Z k" step.  In every scheme the names sort (byte-wise) like their indices; schemes 1
+// and 2 put names before "Atype", between "Atype" and "zKeyOrder", and after "zKeyOrder" - the two keys the
+// decoders treat specially among the SORTED keys of a JSON/msgpack map - and mix upper/lower case, digits, '_'.
+var nameSchemes = [][]string{
+	nil,
+	{"A1", "Age", "Id", "name", "zKey", "zz"},
+	{"ABC", "Atyp", "Atypes", "b_c", "zKeyOrdeR", "zKeyOrders"},
+}
+var curNames []string
+
+func fn(k int) string {
+	if k >= 0 && k < len(curNames) {
+		return curNames[k]
+	}
+	return fmt.Sprintf("f%d", k)
+}
+func fidx(name string) int {
+	for i, n := range curNames {
+		if n == name {
+			return i
+		}
+	}
+	n := -1
+	fmt.Sscanf(name, "f%d", &n)
+	return n
+}
+
 var baseNames = []string{"int64", "float64", "string", "bool", "symbol", "int", "hash"}
 
 type exec struct {
@@ -71,6 +99,7 @@ func resetRegistry() {
 
 func newExec(nstruct int) *exec {
 	uniq++
+	curNames = nil
 	resetRegistry()
 	env := zygo.NewZlisp()
 	env.StandardSetup()
@@ -132,7 +161,7 @@ func (e *exec) rValue(v *value) string {
 func rKeyCtor(k key) string {
 	switch k.kind {
 	case 'f':
-		return fmt.Sprintf("f%d:", k.n)
+		return fn(k.n) + ":"
 	case 'i':
 		return fmt.Sprintf("%d:", k.n)
 	}
@@ -141,7 +170,7 @@ func rKeyCtor(k key) string {
 func rKeyArg(k key) string {
 	switch k.kind {
 	case 'f':
-		return fmt.Sprintf("(quote f%d)", k.n)
+		return "(quote " + fn(k.n) + ")"
 	case 'i':
 		return fmt.Sprintf("%d", k.n)
 	}
@@ -152,7 +181,7 @@ func rKeyArg(k key) string {
 func rKeyRaw(k key) string {
 	switch k.kind {
 	case 'f':
-		return fmt.Sprintf("f%d", k.n)
+		return fn(k.n)
 	case 'i':
 		return fmt.Sprintf("%d", k.n)
 	}
@@ -209,7 +238,7 @@ func (e *exec) render(o *op) string {
 	case 'D':
 		parts := []string{}
 		for _, f := range o.fields {
-			parts = append(parts, fmt.Sprintf("(field f%d: %s)", f.f, e.rTexpr(f.t)))
+			parts = append(parts, fmt.Sprintf("(field %s: %s)", fn(f.f), e.rTexpr(f.t)))
 		}
 		switch o.shape {
 		case 'b':
@@ -236,11 +265,11 @@ func (e *exec) render(o *op) string {
 		case 'h':
 			return fmt.Sprintf("(hset v%d %s %s)", o.id, rKeyArg(o.k), val)
 		case 'd':
-			return fmt.Sprintf("(set v%d.f%d %s)", o.id, o.k.n, val)
+			return fmt.Sprintf("(set v%d.%s %s)", o.id, fn(o.k.n), val)
 		case 'x':
-			return fmt.Sprintf("{v%d.f%d = %s}", o.id, o.k.n, val)
+			return fmt.Sprintf("{v%d.%s = %s}", o.id, fn(o.k.n), val)
 		case 'l':
-			return fmt.Sprintf("(set (hashidx v%d .f%d) %s)", o.id, o.k.n, val)
+			return fmt.Sprintf("(set (hashidx v%d .%s) %s)", o.id, fn(o.k.n), val)
 		case 'j': // index assignment; a symbol key arrives as the one-element array [sym]
 			return fmt.Sprintf("{v%d[%s] = %s}", o.id, rKeyArg(o.k), val)
 		case 'k': // the index is a variable bound to the key
@@ -249,7 +278,7 @@ func (e *exec) render(o *op) string {
 			return fmt.Sprintf("(hset v%d (quote [%s]) %s)", o.id, rKeyRaw(o.k), val)
 		}
 	case 'N':
-		return fmt.Sprintf("{v%d.f%d.f%d = %s}", o.id, o.f, o.g, e.rValue(o.v))
+		return fmt.Sprintf("{v%d.%s.%s = %s}", o.id, fn(o.f), fn(o.g), e.rValue(o.v))
 	case 'X':
 		return fmt.Sprintf("(hdel v%d %s)", o.id, rKeyArg(o.k))
 	case 'R':
@@ -262,8 +291,8 @@ func (e *exec) render(o *op) string {
 		parts := []string{fmt.Sprintf("\"Atype\":\"%s\"", e.sname(o.s))}
 		ko := []string{}
 		for _, a := range o.args {
-			parts = append(parts, fmt.Sprintf("\"f%d\":%s", a.k.n, jsonValue(a.v)))
-			ko = append(ko, fmt.Sprintf("\"f%d\"", a.k.n))
+			parts = append(parts, fmt.Sprintf("\"%s\":%s", fn(a.k.n), jsonValue(a.v)))
+			ko = append(ko, "\""+fn(a.k.n)+"\"")
 		}
 		if o.ko {
 			parts = append(parts, "\"zKeyOrder\":["+strings.Join(ko, ", ")+"]")
@@ -366,8 +395,7 @@ func (e *exec) dump() string {
 				var kd keyed
 				switch k := p.Head.(type) {
 				case *zygo.SexpSymbol:
-					n := -1
-					fmt.Sscanf(k.Name(), "f%d", &n)
+					n := fidx(k.Name())
 					kd = keyed{0, n, fmt.Sprintf("f%d", n)}
 				case *zygo.SexpInt:
 					kd = keyed{1, int(k.Val), fmt.Sprintf("i%d", k.Val)}
@@ -408,12 +436,16 @@ func (e *exec) label(rt *zygo.RegisteredType) string {
 }
 
 func (e *exec) step(o *op) string {
+	if o.kind == 'Z' { // naming scheme of the history: no evaluation, no observation
+		curNames = nameSchemes[o.s%len(nameSchemes)]
+		return "Z"
+	}
 	if o.kind == 'M' {
 		m := map[string]interface{}{"Atype": e.sname(o.s)}
 		ko := []interface{}{}
 		for _, a := range o.args {
-			m[fmt.Sprintf("f%d", a.k.n)] = goValue(a.v)
-			ko = append(ko, fmt.Sprintf("f%d", a.k.n))
+			m[fn(a.k.n)] = goValue(a.v)
+			ko = append(ko, fn(a.k.n))
 		}
 		if o.ko {
 			m["zKeyOrder"] = ko
@@ -502,7 +534,7 @@ func (e *exec) step(o *op) string {
 func runHist(h []*op) string {
 	ns := 1
 	for _, o := range h {
-		if o.s+1 > ns {
+		if o.kind != 'Z' && o.s+1 > ns {
 			ns = o.s + 1
 		}
 		for _, f := range o.fields {
